@@ -2,6 +2,7 @@
 import hashlib
 import json
 import os
+import re
 
 import gen
 import refine
@@ -1285,13 +1286,34 @@ def c17(ctx):
             q["id"] = p["id"] + "-" + tag
             q["job"] = {"source_name": os.path.join(d, "main.facto") if tag == "elsewhere" else rel, "cwd": cw, "trace": True, "tracedir": ctx.wd}
             recs.append(q)
+        # process history (fourth seeded round: imported text cached per path for the life of the process): in its own copy of
+        # the directory the worker first writes an EARLIER edition of every imported file (each integer literal + 1), compiles
+        # main in this very process, puts the files back as given and only then does the judged compile
+        earlier = {f: re.sub(r"(?<![\w.\"-])(\d+)(?![\w.\"])", lambda m: str(int(m.group(1)) + 1), txt) for f, txt in p["filesrc"].items()}
+        if any(earlier[f] != p["filesrc"][f] for f in earlier):
+            tope = os.path.join(ctx.wd, "imp%d-edited" % gi)
+            de = os.path.join(tope, p["subdir"]) if p.get("subdir") else tope
+            os.makedirs(de, exist_ok=True)
+            for f, txt in p["filesrc"].items():
+                with open(os.path.join(de, f), "w") as fh:
+                    fh.write(txt)
+            for f, txt in (p.get("decoys") or {}).items():
+                with open(os.path.join(tope, f), "w") as fh:
+                    fh.write(txt)
+            with open(os.path.join(de, "main.facto"), "w") as fh:
+                fh.write(p["src"])
+            q = dict(p)
+            q["id"] = p["id"] + "-edited"
+            q["job"] = {"source_name": rel, "cwd": tope, "trace": False,
+                        "edit_first": {os.path.join(de, f): [earlier[f], p["filesrc"][f]] for f in earlier}}
+            recs.append(q)
 
     def item(p, rs):
         it = twin_item(p, rs)
         it["files"] = p["files"]
         return it
     compiled_before = len(recs)
-    br = run_refine(ctx, recs, {"DomCap": 200}, item_fn=item, variants=[("", {}), ("#twin", {"__twin": True, "source_name": "<string>", "cwd": None, "trace": False})],
+    br = run_refine(ctx, recs, {"DomCap": 200}, item_fn=item, variants=[("", {}), ("#twin", {"__twin": True, "source_name": "<string>", "cwd": None, "trace": False, "edit_first": None})],
                     batch_size=6, keep_results=True)
     traces = []
     for p in recs:
@@ -1301,7 +1323,7 @@ def c17(ctx):
         if r.get("status") == "timeout":
             ctx.violation(p["id"], "C17_terminates", "compile did not return within the wall bound", {"src": p["src"], "item": {}, "module": "Import"})
             continue
-        if r.get("status") != "ok":
+        if r.get("status") != "ok" or p["id"].endswith("-edited"):
             continue
         evs = [{"kind": e["kind"], "file": os.path.basename(e["path"])} for e in r.get("events", []) if e.get("ev") == "import"]
         traces.append({"id": p["id"], "graph": p["graph"], "events": evs})
